@@ -524,6 +524,26 @@ func runC05(c *core.Ctx) {
 				v = reflect.ValueOf(a)
 			}
 		}
+		// kinds the documentation lists explicitly: bool elements under unique, arrays under ints,
+		// bool under in
+		switch rng.Intn(12) {
+		case 0:
+			text = pick(rng, "unique", "unique|唯一")
+			b := make([]bool, 1+rng.Intn(3))
+			for j := range b {
+				b[j] = rng.Intn(2) == 0
+			}
+			v = reflect.ValueOf(b)
+		case 1:
+			text = pick(rng, "ints", "ints|msg")
+			v = reflect.ValueOf([2]string{pick(rng, "1", "12", "a", " 1"), pick(rng, "7", "x", "", "30")})
+		case 2:
+			text = pick(rng, "in=(true)", "in=(false/x)", "in=(1/true)")
+			v = reflect.ValueOf(true)
+		case 3:
+			text = pick(rng, "unique", "ints")
+			v = reflect.ValueOf([3]int{rng.Intn(3), rng.Intn(3), 7})
+		}
 		if v.IsZero() {
 			continue
 		}
